@@ -311,6 +311,12 @@ func main() {
 					clean := func() {
 						add(rt.Job{T: t.name, V: v, FailAt: -1}, meta{kind: "clean", t: t})
 						add(rt.Job{T: other.name, V: v, FailAt: -1}, meta{kind: "clean", t: other})
+						// and into the caller's own long-lived *bufio.Writer, which other renders must leave alone
+						add(rt.Job{T: t.name, V: v, FailAt: -1, Bufio: true}, meta{kind: "clean", t: t})
+					}
+					if ti == 0 && v == vals[0] {
+						// the very first render of the process (empty pools) goes to the caller's *bufio.Writer
+						add(rt.Job{T: t.name, V: v, FailAt: -1, Bufio: true}, meta{kind: "clean", t: t})
 					}
 					step := 1
 					if len(doc) > 600 {
